@@ -331,6 +331,9 @@ func RunSession(st *simdisk.State, cfg Config, ops []Op, so SessionOpts) *Sessio
 			}
 		}
 		r.LogLen = d.LogLen()
+		for _, m := range sys.CreateViol {
+			r.Viol = append(r.Viol, Violation{Prop: "C07", Msg: m})
+		}
 		if sys.Disk != nil && len(sys.Disk.CreateExist) > 0 {
 			r.Viol = append(r.Viol, Violation{Prop: "C13", Msg: fmt.Sprintf("segment creation collided with an existing file: %v", sys.Disk.CreateExist)})
 		}
